@@ -57,6 +57,7 @@ type Spec struct {
 	Repo       string                `json:"repo"`
 	Groups     map[string]*GroupSpec `json:"groups"`
 	Properties map[string]*PropSpec  `json:"properties"`
+	Rewrites   []RewriteSpec         `json:"rewrites"`
 }
 
 type KnownFinding struct {
@@ -103,7 +104,13 @@ func loadKnown() *KnownFile {
 
 // harnessOverlay returns every harness file of every group mapped into the repository.
 func harnessOverlay(s *Spec) (map[string]string, error) {
-	fm := map[string]string{"internal/vx/vx.go": filepath.Join(verifRoot, "vx", "vx.go")}
+	fm := map[string]string{}
+	vxs, _ := os.ReadDir(filepath.Join(verifRoot, "vx"))
+	for _, e := range vxs {
+		if strings.HasSuffix(e.Name(), ".go") {
+			fm["internal/vx/"+e.Name()] = filepath.Join(verifRoot, "vx", e.Name())
+		}
+	}
 	for _, g := range s.Groups {
 		ents, err := os.ReadDir(filepath.Join(verifRoot, g.HDir))
 		if err != nil {
@@ -115,7 +122,56 @@ func harnessOverlay(s *Spec) (map[string]string, error) {
 			}
 		}
 	}
+	// Environment cut points: a function of the repository that stands for an
+	// external machine (SQLite) is renamed in an overlaid copy of its file, and the
+	// harness package supplies the stand-in under the original name. The copy is
+	// regenerated from the current tree on every run; if the pattern is not found
+	// exactly once the check is inconclusive.
+	for _, rw := range s.Rewrites {
+		src := filepath.Join(s.Repo, rw.File)
+		data, err := os.ReadFile(src)
+		if err != nil {
+			return nil, err
+		}
+		if n := strings.Count(string(data), rw.From); n != 1 {
+			return nil, fmt.Errorf("rewrite of %s: pattern %q found %d times (need exactly 1)", rw.File, rw.From, n)
+		}
+		if rewriteDir == "" {
+			d, err := os.MkdirTemp("", "gosym-rw-")
+			if err != nil {
+				return nil, err
+			}
+			rewriteDir = d
+		}
+		var cur []byte
+		dst := filepath.Join(rewriteDir, sanitize(rw.File))
+		if prev, ok := fm[rw.File]; ok {
+			cur, _ = os.ReadFile(prev)
+		} else {
+			cur = data
+		}
+		out := strings.Replace(string(cur), rw.From, rw.To, 1)
+		if err := os.WriteFile(dst, []byte(out), 0o644); err != nil {
+			return nil, err
+		}
+		fm[rw.File] = dst
+	}
 	return fm, nil
+}
+
+var rewriteDir string
+
+func cleanupRewrites() {
+	if rewriteDir != "" {
+		os.RemoveAll(rewriteDir)
+		rewriteDir = ""
+	}
+}
+
+type RewriteSpec struct {
+	File string `json:"file"` // relative to the repository
+	From string `json:"from"`
+	To   string `json:"to"`
 }
 
 type runResult struct {
